@@ -26,7 +26,9 @@ CATALOG = dict(
     predictor_metadata=[{'name': 'pred', 'integration_name': 'mindsdb'},
                         {'name': 'pred2', 'integration_name': 'proj', 'to_predict': ['y']},
                         {'name': 'tp', 'integration_name': 'mindsdb', 'timeseries': True, 'window': 3,
-                         'order_by_column': 'ts', 'group_by_columns': ['g']}],
+                         'order_by_column': 'ts', 'group_by_columns': ['g']},
+                        {'name': 'tpx', 'integration_name': 'mindsdb', 'timeseries': True, 'window': 2,
+                         'order_by_column': 'ts', 'group_by_columns': ['g', 'h', 'k', 'region', 'store']}],
     default_namespace='mindsdb',
 )
 
@@ -56,6 +58,10 @@ PLAN = [
     "select * from mindsdb.pred where a = 1",
     "select * from nosuch.t1 join int9.t2",
     "delete from int1.t where a = 1",
+    # planning failures whose message lists names: the text must not depend on the hash seed
+    "select * from int1.t as t join mindsdb.tp as m where t.ts > LATEST and t.other = 1",
+    "select * from int1.t as t join mindsdb.tpx as m where t.zzz = 1 and t.yyy = 2",
+    "select * from int1.t as t join mindsdb.tpx as m where t.ts between 1 and 2 and t.g = 1 or t.h = 2",
 ]
 RENDER_SQL = [
     "select a, b from t where a = 'it''s' order by b desc limit 2",
@@ -475,6 +481,33 @@ def run(ctx):
                               'result depends on earlier calls in the process (or on a catalog object an earlier '
                               'call modified): differs from the fresh-process result',
                               {'call': list(c), 'fresh': short(exp), 'got': short(got), 'repetition': rep})
+    # renderer histories: ONE SqlalchemyRender object renders a sequence of statements; every text must equal the text a
+    # fresh renderer gives for that statement alone
+    from mindsdb_sql.render.sqlalchemy_render import SqlalchemyRender
+    RSEQ = [["create table db.t (a int, b text)", "create table db.t (a int)", "create table db.t (a int, b text, c int)"],
+            ["select a, b from t where a = 1", "select b from t", "select t.a, u.b from t join u on t.a = u.a", "select a from t"],
+            ["insert into t (a, b) values (1, 'x')", "insert into t (a) values (2)", "update t set a = 1 where b = 2", "delete from t where a = 3"],
+            ["select a as x from t", "select x from (select a as x from t) as s", "select a as x from t"],
+            ["select cast(a as foo) from t", "select cast(a as int) from t"],
+            ["select `A b`, c from `T t`", "select `a B` from `t T`", "select 1, 1.0, true", "select 1.0, 1, 'true'"]]
+    n_rh = 0
+    for d in RENDER_DIALECTS:
+        for seq in RSEQ + [rng.sample(RENDER_SQL, 3) for _ in range(4 if thorough else 1)]:
+            rnd = SqlalchemyRender(d)
+            for pos, sql in enumerate(seq):
+                def rr(r_):
+                    try:
+                        return 'text:' + r_.get_string(parse_sql(sql, dialect='mindsdb'), with_failback=True)
+                    except Exception as e:   # noqa
+                        return 'exc:%s:%s' % (type(e).__name__, str(e)[:200])
+                from mindsdb_sql import parse_sql
+                got, alone = rr(rnd), rr(SqlalchemyRender(d))
+                n_rh += 1
+                if got != alone:
+                    ctx.violation('history-dependent:render:renderer-reused',
+                                  'the text a renderer object gives for a statement depends on what it rendered before',
+                                  {'dialect': d, 'history': seq[:pos + 1], 'alone': short(alone), 'in_history': short(got)})
+    ctx.cov['renderer_history_renders'] = n_rh
     # planner histories (planhist): several queries on ONE planner object, or fresh planners sharing catalog objects;
     # every plan must equal the plan of the same query planned alone with a fresh copy of the catalog
     from . import planhist
